@@ -161,7 +161,7 @@ structure GreF where
   s : Bool      -- SeqPresent
   a : Bool      -- AckPresent
   recur : Nat   -- < 8
-  flags : Nat   -- < 32
+  flags : Nat   -- < 32 (gre.go: `buf[1] |= g.Flags << 3`, so bit 4 overlaps AckPresent)
   ver : Nat     -- < 8
   proto : Nat
   offset : Nat
@@ -174,7 +174,7 @@ def b2n (b : Bool) : Nat := if b then 1 else 0
 
 /-- gre.go SerializeTo without routing, before the checksum is written (field zeroed) -/
 def greHdr (f : GreF) : Bytes :=
-  [u8 (b2n f.c * 128 + b2n f.k * 32 + b2n f.s * 16 + f.recur), u8 (b2n f.a * 128 + f.flags * 8 + f.ver)] ++
+  [u8 (b2n f.c * 128 + b2n f.k * 32 + b2n f.s * 16 + f.recur), u8 ((b2n f.a * 128) ||| (f.flags * 8 % 256) ||| f.ver)] ++
     putBe16 f.proto ++ (if f.c then [0, 0] ++ putBe16 f.offset else []) ++
     (if f.k then putBe32 f.key else []) ++ (if f.s then putBe32 f.seq else []) ++ (if f.a then putBe32 f.ack else [])
 
